@@ -99,3 +99,97 @@ theorem stepS_none (sg : Sig) (w : HW) (op : HOp) :
   simp [stepS, h, enqueueAll]
 
 end Evp.Heter
+
+/-! ### a listener that empties its own heterogeneous list while it runs
+
+`list = HeterCallbackList()` from inside a callback of `list` (the "remove everything" idiom of the
+heterogeneous API).  The invocation in flight holds the per-prototype list it selected
+(`doGetCallbackList` hands out an owning pointer), so it goes on over the callbacks it started on - the
+calls of the operation are those of `step` - and the container is empty afterwards. -/
+namespace Evp.Heter
+open Evp
+
+/-- does the listener `cb` of event `key` empty the lists of `key` when it is called? -/
+abbrev Clear := Nat → Cb → Bool
+
+def clearedKeys (cl : Clear) (evs : List HEv) : List Nat :=
+  evs.filterMap (fun e => match e with
+    | .call key _ _ cb _ _ => if cl key cb then some key else none
+    | _ => none)
+
+/-- every per-prototype list of `key` becomes empty -/
+def clearKey (n : Nat) (w : HW) (key : Nat) : HW :=
+  { w with lists := (List.range n).foldl (fun ls p => upd ls (slot key p) default) w.lists }
+
+/-- one top-level operation with listeners that enqueue and listeners that empty their list -/
+def stepC (sg : Sig) (sp : Spawn) (cl : Clear) (w : HW) (op : HOp) : HW × List HEv :=
+  let r := stepS sg sp w op
+  ((clearedKeys cl r.2).foldl (clearKey sg.nproto) r.1, r.2)
+
+/-- the invocation in flight is not disturbed: the calls are those of `step`, once each, in order -/
+theorem stepC_calls (sg : Sig) (sp : Spawn) (cl : Clear) (w : HW) (op : HOp) :
+    (stepC sg sp cl w op).2 = (step sg w op).2 := rfl
+
+theorem clearKeys_queue (n : Nat) (ks : List Nat) (w : HW) :
+    (ks.foldl (clearKey n) w).queue = w.queue ∧ (ks.foldl (clearKey n) w).nextId = w.nextId ∧
+    (ks.foldl (clearKey n) w).confused = w.confused := by
+  induction ks generalizing w with
+  | nil => simp
+  | cons k ks ih =>
+    obtain ⟨h1, h2, h3⟩ := ih (clearKey n w k)
+    simp only [List.foldl_cons]
+    exact ⟨h1, h2, h3⟩
+
+/-- emptying listener lists never touches the pending events -/
+theorem stepC_queue (sg : Sig) (sp : Spawn) (cl : Clear) (w : HW) (op : HOp) :
+    (stepC sg sp cl w op).1.queue = (stepS sg sp w op).1.queue :=
+  (clearKeys_queue sg.nproto _ _).1
+
+private theorem foldl_upd_get (key : Nat) (ps : List Nat) (ls : Store SList) (j : Nat) :
+    (ps.foldl (fun ls p => upd ls (slot key p) default) ls) j =
+      if ps.any (fun p => j == slot key p) then default else ls j := by
+  induction ps generalizing ls with
+  | nil => simp
+  | cons p ps ih =>
+    simp only [List.foldl_cons, List.any_cons]
+    rw [ih, upd_get]
+    by_cases h1 : ps.any (fun p => j == slot key p) <;> by_cases h2 : j = slot key p <;> simp [h1, h2]
+
+/-- after the clearing, every per-prototype list of that key is empty and the other keys' lists are as before -/
+theorem clearKey_lists (n : Nat) (w : HW) (key : Nat) (k p : Nat) (hp : p < 16) (hn : n ≤ 16) :
+    (clearKey n w key).lists (slot k p) = if k = key ∧ p < n then default else w.lists (slot k p) := by
+  unfold clearKey
+  simp only
+  rw [foldl_upd_get]
+  by_cases hk : k = key
+  · subst hk
+    by_cases hpn : p < n
+    · have : (List.range n).any (fun q => slot k p == slot k q) = true := by
+        simp only [List.any_eq_true, List.mem_range]
+        exact ⟨p, hpn, by simp⟩
+      simp [this, hpn]
+    · have : (List.range n).any (fun q => slot k p == slot k q) = false := by
+        simp only [List.any_eq_false, List.mem_range]
+        intro q hq
+        simp only [slot, beq_iff_eq]
+        omega
+      simp [this, hpn]
+  · have : (List.range n).any (fun q => slot k p == slot key q) = false := by
+      simp only [List.any_eq_false, List.mem_range]
+      intro q hq
+      simp only [slot, beq_iff_eq]
+      omega
+    simp [this, hk]
+
+/-- no clearing listener: `stepC` is `stepS` -/
+theorem stepC_none (sg : Sig) (sp : Spawn) (w : HW) (op : HOp) :
+    stepC sg sp (fun _ _ => false) w op = stepS sg sp w op := by
+  have h : ∀ evs : List HEv, clearedKeys (fun _ _ => false) evs = [] := by
+    intro evs
+    unfold clearedKeys
+    rw [List.filterMap_eq_nil_iff]
+    intro e _
+    cases e <;> simp
+  simp [stepC, h]
+
+end Evp.Heter
